@@ -59,11 +59,16 @@ def c15_2(ctx):
 
     def match(node, ex, atoms):
         t = node.ast
+        pair = None
         if isinstance(t, ast.Compare) and len(t.ops) == 1 and isinstance(t.ops[0], (ast.Eq, ast.NotEq)):
-            lo, ro = origins(fn, node.id, t.left), origins(fn, node.id, t.comparators[0])
+            pair = (t.left, t.comparators[0], BAD_TRUE if isinstance(t.ops[0], ast.NotEq) else BAD_FALSE)
+        elif isinstance(t, ast.Call) and call_name(t) == "compare_digest" and len(t.args) == 2:
+            pair = (t.args[0], t.args[1], BAD_FALSE)  # hmac.compare_digest(a, b): equality of two byte strings
+        if pair:
+            lo, ro = origins(fn, node.id, pair[0]), origins(fn, node.id, pair[1])
             for a, b in ((lo, ro), (ro, lo)):
                 if "call:digest" in a and "slice::4" in b and "call:digest" not in b:
-                    return BAD_TRUE if isinstance(t.ops[0], ast.NotEq) else BAD_FALSE
+                    return pair[2]
         return None
     return [rl.guard(ctx, spec, match, what="digest share must authenticate the recovered secret", key="digest")]
 
@@ -221,6 +226,65 @@ def c15_4(ctx):
     return out
 
 
+def _crypt_terms(ctx):
+    """ShareSet._crypt over a free round function: pbkdf2_hmac is a stand-in that turns its five arguments into dklen bytes (an injective
+    enough function of all of them), and the result is compared with the SLIP39 Feistel network written with the same stand-in:
+    L, R <- R, L xor F(HMAC-SHA256, i ‖ passphrase, "shamir" ‖ id(2, big endian) ‖ R, 2500 << e, len/2) for each round index i; output R ‖ L.
+    Returns None when _crypt is outside the evaluator's subset."""
+    import hashlib
+    from sa.cells import ClassRef, Evaluator, Raised, Undecided
+    spec = "shamir:ShareSet._crypt"
+    mod, fn = rl.get(ctx, spec)
+
+    def F(prf, password, salt, iterations, dklen=None, *a, **k):
+        seed = repr((prf, bytes(password), bytes(salt), iterations, dklen)).encode()
+        out_, c = b"", 0
+        while len(out_) < (dklen or 32):
+            out_ += hashlib.sha256(seed + bytes([c])).digest()
+            c += 1
+        return out_[:dklen or 32]
+
+    def reference(payload, id_, e, pw, indices):
+        half = len(payload) // 2
+        L, R = payload[:half], payload[half:]
+        salt = b"shamir" + id_.to_bytes(2, "big")
+        for i in indices:
+            f = F("sha256", i + pw, salt + R, 2500 << e, half)
+            L, R = R, bytes(x ^ y for x, y in zip(L, f))
+        return R + L
+    fwd = (b"\x00", b"\x01", b"\x02", b"\x03")
+    cells = 0
+    for ln in (16, 32):
+        payload = bytes(range(ln))
+        for id_ in (0, 0x1234, 0x7FFF):
+            for e in (0, 1, 3):
+                for pw in (b"", b"TREZOR"):
+                    for indices in (fwd, fwd[::-1]):
+                        cells += 1
+                        try:
+                            r = Evaluator(ctx.repo, externals={"pbkdf2_hmac": F}).call(spec, [payload, id_, e, pw, indices], self_obj=ClassRef("shamir", "ShareSet"))
+                        except Undecided:
+                            return None
+                        except Raised as x:
+                            return [ctx.bad(spec, "_crypt raises %s for a %d-byte payload" % (x.name, ln), fn, mod, key="round-function")]
+                        if r != reference(payload, id_, e, pw, indices):
+                            # which part differs: try the reference with single deviations to name it
+                            return [ctx.bad(spec, "the result for a %d-byte payload, id %#x, exponent %d, passphrase %r differs from the SLIP39 Feistel network "
+                                                  "L,R <- R, L xor PBKDF2-HMAC-SHA256(i ‖ passphrase, 'shamir' ‖ id ‖ R, 2500 << e, len/2); output R ‖ L" % (ln, id_, e, pw), fn, mod,
+                                            key="round-function")]
+    for bad_len in (15, 17):
+        try:
+            Evaluator(ctx.repo, externals={"pbkdf2_hmac": F}).call(spec, [bytes(bad_len), 1, 0, b"", fwd], self_obj=ClassRef("shamir", "ShareSet"))
+            return [ctx.bad(spec, "a payload of %d bytes (odd) is processed" % bad_len, fn, mod, key="feistel")]
+        except Raised:
+            pass
+        except Undecided:
+            return None
+    ctx.count("cells", cells)
+    return [ctx.ok(spec, "F = PBKDF2-HMAC-SHA256(i‖passphrase, salt‖R, 2500<<e, len/2) (free round function, %d cells)" % cells, fn, mod, key="round-function"),
+            ctx.ok(spec, "L,R ← R, L xor F; output R‖L; salt 'shamir'‖id(2)", fn, mod, key="feistel")]
+
+
 def c15_5(ctx):
     out = []
     f = Folder(ctx.repo, "shamir")
@@ -244,6 +308,9 @@ def c15_5(ctx):
         out.append(ctx.ok("shamir:ShareSet.encrypt↔decrypt", "4 Feistel rounds 0,1,2,3; decryption runs them in reverse", key="rounds"))
     else:
         out.append(ctx.bad("shamir:ShareSet.encrypt↔decrypt", "round indices: encrypt %s, decrypt %s; SLIP39: 0..3 and the exact reverse" % (e, d), key="rounds"))
+    ev = _crypt_terms(ctx)
+    if ev is not None:
+        return out + ev
     mod, fn = rl.get(ctx, "shamir:ShareSet._crypt")
     src = ast.unparse(fn)
     call = [c for c in ast.walk(fn) if isinstance(c, ast.Call) and call_name(c) == "pbkdf2_hmac"]
